@@ -53,6 +53,14 @@ class C01Oracle:
         lo, hi = l.bounds
         xs = sorted(x for x in l.data if lo <= x <= hi)
         factor = l._recompute_losses_factor
+        # the normalisation itself, from scratch: the largest component range of the values held
+        # (all told points are inside the bounds in these histories; no NaN values)
+        if xs:
+            vals = np.array([np.atleast_1d(np.asarray(l.data[x], dtype=float)) for x in xs])
+            true_sy = float(np.max(vals.max(axis=0) - vals.min(axis=0)))
+            if not same(true_sy, float(sy)):
+                self.errors.append(("y_scale", f"_scale[1]={sy!r} but the largest component range of the values held is {true_sy!r}"))
+                return
         ivs = list(zip(xs, xs[1:]))
         stored = {(float(a), float(b)): float(v) for (a, b), v in l.losses.items()}
         if sorted(stored) != [(float(a), float(b)) for a, b in ivs]:
